@@ -5,6 +5,9 @@ ROOT = os.path.dirname(os.path.abspath(__file__))
 ALL = ['C%02d' % i for i in range(1, 20)]
 
 CLAIMED = {
+ 'C01': dict(text="Theorems C01_roundtrip_partial, C01_accessors_and_reencoding: for every packet of Packet.InDomain (Props/Domain.lean: all 15 types, strings 0..65535 bytes, any remaining length below 2^28 in its 1-4 byte forms, CONNECT with nested will and credentials, user properties, subscription identifiers, filters, reason codes) ReadPacket on the bytes the two-pass encoder produced — under any reader schedule, followed by anything — returns without error the very packet value that was written (hence same dynamic type, every accessor equal incl. the nested will, byte-identical re-encoding) and consumes exactly the frame. Proof: E (C02: encoder output = Spec.unparse of a legal abstract packet with the same view), D (C03: the decoder accepts it with the specification's view), C16 (first byte preserved), and Proofs.Inject (view + first byte determine the packet value; decoded CONNECTs are canonical). Correspondence: RT oracle (WriteTo, ReadPacket, accessor snapshots, re-WriteTo) on generated packets over the full C01 domain incl. boundary lengths.",
+             note="PARTIAL: the theorem covers the structurally valid part of the C01 domain (protocol name MQTT/version 5, legal subscription option bits, at least one SUBACK/UNSUBACK reason code); constructible-but-invalid packets of the domain (other protocol names/versions, all 256 option bytes, empty reason-code lists) are covered by the correspondence oracle only. All 256 reason-code values, MaxQoS values etc. are inside the theorem.",
+             technique="Lean 4 theorem (E + D + injectivity of the accessor view: decode(encode p) = p as values) + differential round-trip correspondence", ref="§7 C01"),
  'C02': dict(text="Theorems C02_emits_valid, C02_one_frame: for every packet of the domain Packet.InDomain (Props/Domain.lean: all 15 types; strings and user properties within 65535 bytes, non-empty keys, remaining length below 2^28, first byte as the constructor sets it, CONNECT flags as the setters maintain them with an unmodified will, protocol MQTT/5, at least one reason code/filter, legal subscription option bits, QoS <= 2) the bytes of the two-pass encoder are exactly one frame: unparse of an abstract packet that is Legal by the independent specification layer (allowed identifiers per packet with their wire type, at most once, short forms, minimal lengths equal to what follows) and whose specification-side reading (absent = zero value) equals the API values. Proofs.E*: per packet type, generic bridge in Proofs.EBridge (the encoder writes the non-zero fields in a fixed order, a legal occurrence list). Correspondence: WriteTo bytes of generated well-formed packets parsed by the strict Spec.parse in Lean (op SPEC) and compared with the accessor view.",
              note="Structural validity is defined generatively (image of Spec.unparse over Spec.Legal); the strict parser Spec.parse is exercised dynamically on every emitted frame but parse-after-unparse is not yet a theorem. Spec.* is a hand-written reading of MQTT v5.0 and is trusted.",
              technique="Lean 4 theorem (encoder output = specification unparser on a legal abstract packet, per packet type) + differential correspondence through an independent strict parser", ref="§7 C02"),
